@@ -74,8 +74,8 @@ CHECKS = {
         'technique': 'Hypothesis graph generation x exhaustive entry choice; differential (slice vs whole vs reference) + closure model',
     },
     'C04': {
-        'text': 'Hypothesis RuleBasedStateMachine: generated workbook (constants, formulas incl. an erroring cell and its dependants, blanks, 1-2 sheets) + histories of <= 12 set_cells batches / queries (same cell twice in a batch or again later, formula cells, blanks, cells beyond the used range, other sheets, A1/numeric/mixed addressing, int/float/text/bool/date values); at every query every cell and the whole-sheet grid are compared with a fresh translation of the edited workbook, a bystander executor on the same class must keep seeing the plain workbook and its sizes, values are re-written with an equal value of another type (1 / TRUE), cells are hashed before they are handed over; histories with repeated writes are replayed in child processes under other PYTHONHASHSEED values',
-        'note': 'trusted: dict model cell -> last value, openpyxl writer; override values never start with "=", are not None/empty text/integral floats; whole-column references not generated',
+        'text': 'Hypothesis RuleBasedStateMachine: generated workbook (constants, formulas incl. an erroring cell and its dependants, blanks, 1-2 sheets) + histories of <= 12 set_cells batches / queries (same cell twice in a batch or again later, formula cells, blanks, cells beyond the used range, other sheets, A1/numeric/mixed addressing, int/float/text/bool/date values); at every query every cell and the whole-sheet grid are compared with a fresh translation of the edited workbook, a bystander executor on the same class must keep seeing the plain workbook and its sizes, values are re-written with an equal value of another type (1 / TRUE), cells are hashed before they are handed over, whole-column observers (SUM / COUNT / MAX / SUMIF(S) / COUNTIFS over A:A, A:C, T!A:B) with cells set below the last row of the workbook; histories with repeated writes are replayed in child processes under other PYTHONHASHSEED values',
+        'note': 'trusted: dict model cell -> last value, openpyxl writer; override values never start with "=", are not None/empty text/integral floats; whole-column references only under observers that ignore trailing blank rows',
         'technique': 'Hypothesis stateful (model-based) testing; metamorphic oracle override == edit-and-retranslate; hash-seed matrix',
     },
     'C08': {
@@ -84,9 +84,9 @@ CHECKS = {
         'technique': 'Hypothesis stateful (model-based) testing vs value-table model; API/addressing metamorphic agreement',
     },
     'C09': {
-        'text': '(a) Hypothesis RuleBasedStateMachine on one Parser over a pool of workbooks (differing in one constant, permuted sheets, a suspicious cell, a malformed formula): set path / set-replace-clear entry / enable-disable safety / get / write, each get/write compared with a fresh Parser holding the same final settings, repeated gets identical, written file == returned text; (b) sha256 of the text for pool workbook x entry across child processes under several PYTHONHASHSEED values, cold and after other translations; (c) cold child processes with 8 barrier-released threads (switch interval 1 us) translating concurrently, incl. a 400-cell reference chain that exceeds the default interpreter stack; writes go to one and the same file',
-        'note': 'trusted: a fresh Parser as reference for a cached one (the relation the property states); threads only sample interleavings - the harness does not own the scheduler',
-        'technique': 'Hypothesis stateful testing vs fresh-instance reference; process / hash-seed / thread differential on sha256',
+        'text': '(a) Hypothesis RuleBasedStateMachine on one Parser over a pool of workbooks (differing in one constant, permuted sheets, a suspicious cell, a malformed formula): set path / set-replace-clear entry / enable-disable safety / get / write, each get/write compared with a fresh Parser holding the same final settings, repeated gets identical, written file == returned text; (b) sha256 of the text for pool workbook x entry across child processes under several PYTHONHASHSEED values, cold and after other translations; (c) cold child processes with 8 barrier-released threads (switch interval 1 us) translating concurrently, incl. a 400-cell reference chain that exceeds the default interpreter stack; (d) 2-3 translations in threads under a schedule drawn by the harness (profile hook per thread, every call into a package function is a switch point, segments cut at fractions of the measured call counts; the job is the replayable input); writes go to one and the same file',
+        'note': 'trusted: a fresh Parser as reference for a cached one (the relation the property states); lane (c) only samples interleavings; lane (d) owns the schedule at call granularity (a switch inside one function body is not generated)',
+        'technique': 'Hypothesis stateful testing vs fresh-instance reference; process / hash-seed / thread differential on sha256; generated thread schedules',
     },
     'C18': {
         'text': 'Hypothesis workbooks of 1-5 sheets (some empty), sparse cells with empty rows/columns inside the used range, first used cell away from A1, far cells (row <= 3000, column <= 400), stale <dimension> records, values int / float / bool / text (printable + unicode) / date / date-time / formulas / ArrayFormula; every planted coordinate, its eight neighbours, the used-range corners and sampled blanks queried through Executor.get_cell on the class object and on the file-loaded class; get_titles / get_sheets_size vs the model',
